@@ -8,7 +8,7 @@ from ..hx import assume, require, reach, Skip
 MANIFEST = dict(
     engines="AB",
     technique="symbolic execution (CrossHair+z3) of tokenize_deb822_file and parse_deb822_file(...).dump() on documents of 1-3 symbolic lines (line classes and lengths fixed per partition, characters symbolic, three newline modes); regex-to-SMT lemmas (unbounded line length) that the field-line regex consumes every line it matches and that the whitespace-line class is what the tokenizer assumes",
-    text="Engine A: for documents of 1-2 (thorough: 3) lines, each line one of {arbitrary text, 'Name:'+arbitrary text, blank+arbitrary text, '#'+arbitrary text} with up to 2 (thorough: 3) arbitrary Unicode characters (no newline), with all lines newline-terminated, the last one unterminated, or (>= 2 lines) none terminated: the accepting parser returns, dump() equals the concatenation of the input (each line followed by a newline in the none-terminated form) and the token texts concatenate to the same string. Engine B: for lines of ANY length, match(_RE_FIELD_LINE) implies the five groups cover the whole line; whitespace-only lines are exactly full(_RE_WHITESPACE_LINE) and never start with '#'; lines starting with a blank never match the field regex.",
+    text="Engine A: for documents of 1-2 (thorough: 3) lines, each line one of {arbitrary text, 'Name:'+arbitrary text, blank+arbitrary text, '#'+arbitrary text} with up to 2 (thorough: 3) arbitrary Unicode characters (no newline), with all lines newline-terminated, the last one unterminated, or (>= 2 lines) none terminated: the accepting parser returns, dump() equals the concatenation of the input (each line followed by a newline in the none-terminated form) and the token texts concatenate to the same string. Engine B: for lines of ANY length, match(_RE_FIELD_LINE) implies the five groups cover the whole line; whitespace-only lines are exactly full(_RE_WHITESPACE_LINE) and never start with '#'; lines starting with a blank never match the field regex. Run documents: two runs of 0-6 (thorough: 11) equal lines (blank/space/tab/comment/continuation/junk/field) with both run lengths symbolic plus a symbolic last line; and a parse preceded by a call that ended early (five kinds) is still lossless.",
     note="Trusted: CrossHair str/regex models (repaired), z3 regex theory. Field names reaching the tokenizer's dict cache are realised by CrossHair (hashing), so lines whose *name* is symbolic are explored by solver-driven enumeration of names; value/comment/continuation text stays symbolic. Outside: more than 3 lines, lines longer than 3 symbolic characters (engine A), bytes input, an empty unterminated last line.",
 )
 
